@@ -64,8 +64,11 @@ arr_real FIRRateConverter::process(const arr_real& in) {
 }
 
 int FIRRateConverter::delay() const noexcept {
-    //TODO: must be N/2
-    return sublen_ / 2 + 1;
+    //group delay of the prototype filter (N/2 samples at the interpolated rate)
+    //minus the output phase (decim - 1), expressed in output samples (rounded)
+    const int n2 = (sublen_ * interp_) / 2;
+    const int d = (n2 - (decim_ - 1) + decim_ / 2) / decim_;
+    return (d > 0) ? d : 0;
 }
 
 int FIRRateConverter::interp_rate() const noexcept {
